@@ -704,8 +704,15 @@ func checkExpiryPredicateAs(e *Env, rule string) {
 			e.R.Check(w2 == nil, rule, "pkg/cache.Cache.LoadOrStore:replaces-expired-entry", e.pos(c.(ssa.Instruction)),
 				"with the key present but expired the callback stores the new element", "an expired entry is kept instead of being replaced: the key never becomes fresh again until a sweep runs: "+e.trace(w2))
 			// the expiry test must be on the old value with a time obtained before (not a constant)
-			nIs := len(core.CallsNamed(inner, "pkg/cache.Element.IsExpired"))
-			e.R.Check(nIs >= 1, rule, "pkg/cache.Cache.LoadOrStore:tests-expiry", e.pos(c.(ssa.Instruction)), "expiry of the old value is consulted", "the callback never consults IsExpired")
+			isC := core.CallsNamed(inner, "pkg/cache.Element.IsExpired")
+			nIs := len(isC)
+			whyIs := "the callback never consults IsExpired"
+			for _, ic := range isC {
+				if core.Resolve(core.Unwrap(core.Arg(ic, 0))) != ssa.Value(oldV) {
+					nIs, whyIs = 0, "IsExpired is asked of something other than the element found in the map (the new element is never expired yet): a stale entry is returned as loaded although Load hides it"
+				}
+			}
+			e.R.Check(nIs >= 1, rule, "pkg/cache.Cache.LoadOrStore:tests-expiry", e.pos(c.(ssa.Instruction)), "expiry of the old value is consulted", whyIs)
 		}
 		if !done {
 			e.R.Fail(rule, "pkg/cache.Cache.LoadOrStore:replaces-expired-entry", e.fpos(f), "Cache.LoadOrStore does not consult the expiry of the existing element (no ReplaceWithFunc callback testing IsExpired): an expired entry blocks its key until a sweep removes it, while Load already hides it")
